@@ -1,0 +1,58 @@
+//go:build verif
+
+package transactional
+
+// Contracts for the gvc verifier (/verif). Comment-only; never compiled into
+// a normal build.
+//
+// Abstract view of the transactional reference store (property C19):
+//   view(k) = deleted[k] ? absent
+//           : temporal.#refs[k] != absent ? temporal.#refs[k] : base.#refs[k]
+// Every operation is specified against the whole view, and the base map is
+// never touched before Commit.
+
+//gvc:pred tx_view(r, k) = ite(has(r.deleted, k), 0, ite(r.temporal.#refs[k] != 0, r.temporal.#refs[k], r.ReferenceStorer.#refs[k]))
+
+//gvc:func ReferenceStorage.Reference
+//gvc:  props C19
+//gvc:  theory int
+//gvc:  results ref err
+//gvc:  requires distinct: r.temporal != r.ReferenceStorer
+//gvc:  ensures found: err == nil ==> ref != nil && ref == tx_view(r, strid(n))
+//gvc:  ensures absent: err == plumbing.ErrReferenceNotFound ==> tx_view(r, strid(n)) == 0
+//gvc:  ensures missing: tx_view(r, strid(n)) == 0 ==> err != nil
+//gvc:end
+
+//gvc:func (*ReferenceStorage).SetReference
+//gvc:  props C19
+//gvc:  theory int
+//gvc:  results err
+//gvc:  requires distinct: r.temporal != r.ReferenceStorer
+//gvc:  requires refnn: ref != nil
+//gvc:  modifies map:has, r.temporal.#refs
+//gvc:  ensures set: err == nil ==> tx_view(r, strid(ref.n)) == ref
+//gvc:  ensures others: forall(k, -0x7fffffffffffffff, 0x7fffffffffffffff, k != strid(ref.n) ==> tx_view(r, k) == old(tx_view(r, k)))
+//gvc:  ensures base: r.ReferenceStorer.#refs == old(r.ReferenceStorer.#refs)
+//gvc:end
+
+//gvc:func ReferenceStorage.RemoveReference
+//gvc:  props C19
+//gvc:  theory int
+//gvc:  results err
+//gvc:  requires distinct: r.temporal != r.ReferenceStorer
+//gvc:  modifies map:has, r.temporal.#refs
+//gvc:  ensures removed: tx_view(r, strid(n)) == 0
+//gvc:  ensures others: forall(k, -0x7fffffffffffffff, 0x7fffffffffffffff, k != strid(n) ==> tx_view(r, k) == old(tx_view(r, k)))
+//gvc:  ensures base: r.ReferenceStorer.#refs == old(r.ReferenceStorer.#refs)
+//gvc:end
+
+//gvc:func (*ReferenceStorage).CheckAndSetReference
+//gvc:  props C19
+//gvc:  theory int
+//gvc:  results err
+//gvc:  requires distinct: r.temporal != r.ReferenceStorer
+//gvc:  requires refnn: ref != nil
+//gvc:  modifies map:has, r.temporal.#refs
+//gvc:  ensures cas: err == nil && old != nil ==> old(tx_view(r, strid(old.n))) != 0 && field(old(tx_view(r, strid(old.n))), "plumbing.Reference.h") == old.h
+//gvc:  ensures base: r.ReferenceStorer.#refs == old(r.ReferenceStorer.#refs)
+//gvc:end
